@@ -89,8 +89,11 @@ func resolveFieldAliases(p *Prog) []string {
 		}
 		short := key[strings.LastIndex(key[:strings.LastIndex(key, ".")], "/")+1:]
 		used := map[string]bool{}
+		tn := key[strings.LastIndex(key, ".")+1:]
+		typeExported := len(tn) > 0 && tn[0] >= 'A' && tn[0] <= 'Z'
 		for _, rf := range rfs {
-			if curNames[rf[0]] || (len(rf[0]) > 0 && rf[0][0] >= 'A' && rf[0][0] <= 'Z') {
+			// an exported field of an exported type is API: its absence is not a renaming
+			if curNames[rf[0]] || (typeExported && len(rf[0]) > 0 && rf[0][0] >= 'A' && rf[0][0] <= 'Z') {
 				continue
 			}
 			var cands []string
